@@ -63,7 +63,7 @@ def param_tokens(params):
 
 def gen_params(rng):
     """documented-valid parameter sets far from the defaults"""
-    ns = rng.choice([1, 1, 2, 3, 4, 6, 9, 12])
+    ns = rng.choice([1, 1, 2, 3, 4, 6, 9, 11, 12, 13])   # beyond ten names `srv_10` sorts before `srv_2`: order-sensitive code shows
     no = rng.randint(1, 4)
     npr = rng.randint(1, 4)
     nh = rng.choice([3, 4, 5, 6, 8, 11, 16, 23, 38, 41, 45, 60, 82, 95, 120])
